@@ -458,6 +458,32 @@ def gen_random(rng, nsteps, params, gc_rate=0.03, big=True, maxlive=40):
     return ops
 
 
+def split_excursions(ops, levels):
+    """ops = sibling excursions '( op ... )'; returns chains '( op ( op ... ) )' that each follow one path
+    for the first `levels` steps and contain the complete subtree below."""
+    sibs, cur, d = [], [], 0
+    for o in ops:
+        cur.append(o)
+        if o[0] == "(":
+            d += 1
+        elif o[0] == ")":
+            d -= 1
+            if d == 0:
+                sibs.append(cur)
+                cur = []
+    if levels <= 1:
+        return sibs
+    res = []
+    for t in sibs:
+        head, inner, tail = t[:2], t[2:-1], t[-1:]
+        if not inner:
+            res.append(t)
+            continue
+        for c in split_excursions(inner, levels - 1):
+            res.append(head + c + tail)
+    return res
+
+
 def gen_exhaustive(alphabet, depth, with_gc=True):
     """DFS over all histories of length <= depth with steps: alloc(one of the alphabet), free the oldest
     live block, free the newest live block, collect with nothing rooted.  Brackets = excursions."""
@@ -1044,7 +1070,7 @@ def run(rep, tier):
         res = C.check_props_file("Props/Properties_C09_model.v")
         if res["ok"]:
             rep.add_obligations(len(res["theorems"]), len(res["theorems"]))
-            rep.add_cov(theorems=res["theorems"], axioms=res["assumptions"])
+            rep.add_cov(c09_model_theorems=res["theorems"], c09_model_axioms=res["assumptions"])
         else:
             rep.violation("abstract collector theorems (Properties_C09_model.v) no longer check",
                           {"log_tail": res["log"][-2000:]}, no_input=True)
@@ -1060,37 +1086,21 @@ def run(rep, tier):
         streams.append(("targeted:" + name, ops, True))
     # exhaustive short histories, split over the first step so that they run in parallel
     alphabet = [8, 24, 256, 257, 700, 3000]
-    depth = 6 if quick else 8
-    ex_ops, ex_count = gen_exhaustive(alphabet, depth)
-    # split top-level excursions into separate processes
-    tops, cur, d = [], [], 0
-    for o in ex_ops:
-        cur.append(o)
-        if o[0] == "(":
-            d += 1
-        elif o[0] == ")":
-            d -= 1
-            if d == 0:
-                tops.append(cur)
-                cur = []
-    if True:
-        # one more level of splitting so that the excursions run in parallel
-        tops2 = []
+    depth = 6 if quick else 7
+    ex_sets = [(alphabet, depth, True)]
+    if not quick:
+        # length 8 over a smaller alphabet, without collections (the tree grows as 6^8)
+        ex_sets.append(([24, 257, 700, 3000], 8, False))
+    ex_count = 0
+    nex = 0
+    for (alph, dep, wgc) in ex_sets:
+        ex_ops, cnt = gen_exhaustive(alph, dep, with_gc=wgc)
+        ex_count += cnt
+        # split the first levels of excursions into separate processes
+        tops = split_excursions(ex_ops, 2 if quick else 3)
         for t in tops:
-            head, inner = t[:2], t[2:-1]
-            sub, cur, d = [], [], 0
-            for o in inner:
-                cur.append(o)
-                if o[0] == "(":
-                    d += 1
-                elif o[0] == ")":
-                    d -= 1
-                    if d == 0:
-                        tops2.append(head + cur + [t[-1]])
-                        cur = []
-        tops = tops2
-    for i, t in enumerate(tops):
-        streams.append(("exhaustive:%d" % i, t, True))
+            streams.append(("exhaustive:%d" % nex, t, True))
+            nex += 1
     # random histories
     nrand, steps = (3, 3400) if quick else (10, 10000)
     for i in range(nrand):
